@@ -15,7 +15,10 @@ package main
 //	                 the server saw, with the masquerade handler's own answer (from an httptest recorder) as
 //	                 the model's `masq r` parameter.
 //
-// Model-free oracles (evaluated on the implementation alone):
+// Model-free oracles (evaluated on the implementation alone).  O1-O4 are C01's clauses and are evaluated by both
+// components; O5/O6 are C02's clauses and are evaluated by the `masq` component only (the `auth` component neither
+// reports them nor compares what a non-233 response contains or which requests reach the authenticator: on a tree
+// where only C02 fails, C01 must stay silent):
 //
 //	O1  no dialTCP / dialUDP / relay / udpWrite / tcpReq / udpReq effect of connection c before the fake
 //	    authenticator returned ok for c
@@ -249,6 +252,7 @@ type awRunner struct {
 	baseGo   int
 	lastSeen map[int]int  // per connection: how many masq-handler sightings were consumed
 	stuck    map[int]bool // per connection: an expected effect did not come within the bounded wait
+	c02      bool         // evaluate C02's clauses O5/O6 (component masq)
 }
 
 func awNewRunner(cfg awCfg) (*awRunner, error) {
@@ -356,7 +360,15 @@ func (rn *awRunner) finishRequest(cl *awClient, spec awReqSpec, resp awResp, cal
 	shape := res.seen.Method == "POST" && res.seen.Host == "hysteria" && res.seen.Path == "/auth"
 	acceptedReq := shape && (acceptedBefore || res.accepted)
 	desc := fmt.Sprintf("%s %s %s on c%d", res.seen.Method, res.seen.Host, awPaths[spec.p], c)
-	if resp.err != "" {
+	if res.is233 && resp.err == "" {
+		cl.mu.Lock()
+		cl.saw233 = true
+		if strings.EqualFold(resp.header.Get("hysteria-udp"), "true") {
+			cl.sawUDP = true
+		}
+		cl.mu.Unlock()
+	}
+	if resp.err != "" || !rn.c02 {
 		return res
 	}
 	if res.called && !shape {
@@ -377,14 +389,6 @@ func (rn *awRunner) finishRequest(cl *awClient, spec awReqSpec, resp awResp, cal
 			rn.fail("O6: accepted authentication request answered %d instead of 233: %s", resp.status, desc)
 		}
 	}
-	if res.is233 {
-		cl.mu.Lock()
-		cl.saw233 = true
-		if strings.EqualFold(resp.header.Get("hysteria-udp"), "true") {
-			cl.sawUDP = true
-		}
-		cl.mu.Unlock()
-	}
 	return res
 }
 
@@ -400,19 +404,22 @@ func (rn *awRunner) doRequest(cl *awClient, spec awReqSpec) awReqResult {
 	return res
 }
 
-// outcome token of a request for the auth component: "233/<udp>/<rx>" or "masq" (= the handler-alone
-// response, whole) or "other:<status>"
+// outcome token of a request for the auth component: "233" or "other" (WHAT a non-233 response contains is C02's business)
 func (res awReqResult) authOutcome() string {
 	if res.resp.err != "" {
 		return "err:" + awTok(res.resp.err)
 	}
 	if res.is233 {
-		return fmt.Sprintf("233/%s/%s", awTok(res.resp.header.Get("hysteria-udp")), awTok(res.resp.header.Get("hysteria-cc-rx")))
+		return "233"
 	}
-	if res.canon.equal(res.alone) {
-		return "masq"
-	}
-	return fmt.Sprintf("other:%d", res.resp.status)
+	return "other"
+}
+
+// authModelEvent: how a completed request is handed to the C01 model.  Whether the server TREATED it as an
+// authentication request is an observation (the authenticator was consulted for it, or it was answered 233), not
+// something C01 derives from the request: which requests are auth-shaped is C02's clause.
+func (res awReqResult) authModelEvent(c int, spec awReqSpec) string {
+	return fmt.Sprintf("H%d/%d/%s", c, awB(res.called || res.is233), awTok(spec.authString()))
 }
 
 func awReqAddr(c, k int, kind string) string {
@@ -456,7 +463,9 @@ func (rn *awRunner) finish() (proj map[int][]string, dg map[int][3]int) {
 	proj = map[int][]string{}
 	accepted := map[int]bool{}
 	for _, e := range rn.w.log {
-		proj[e.conn] = append(proj[e.conn], e.s)
+		if e.s != "masq" { // which requests go to the masquerade handler is C02's clause
+			proj[e.conn] = append(proj[e.conn], e.s)
+		}
 		switch {
 		case e.s == "verdict(1)":
 			accepted[e.conn] = true
@@ -607,8 +616,10 @@ func awGenHistory(r *vh.RNG, maxEv int) (string, []string) {
 					s.p = 1 + r.Intn(len(awPaths)-1)
 				}
 			}
-			if pendingB[c] && s.m == 0 && s.a == 0 && (s.p == 0 || s.p == 4 || s.p == 6 || s.p == 10) {
-				continue // would queue behind the blocked request; Q covers that
+			if pendingB[c] {
+				// a request the server takes for an auth request would wait on authMutex behind the blocked one (Q covers
+				// that); which requests those are is C02's clause, so stay far away from the shape here
+				s = awReqSpec{m: 1 + r.Intn(2), a: 4, p: []int{5, 9}[r.Intn(2)], hflags: r.Intn(8), cred: awCreds[r.Intn(3)]}
 			}
 			ev = fmt.Sprintf("H%d/%s", c, s)
 		case k < 13:
@@ -690,7 +701,7 @@ func (authComp) Run(op string) vh.Result {
 		}
 		outs = append(outs, out)
 		mev = append(mev, m)
-		if strings.HasPrefix(out, "233") || strings.HasPrefix(out, "resp:") {
+		if strings.Contains(out, "233") || strings.HasPrefix(out, "resp:") {
 			nontrivial = true
 		}
 	}
@@ -759,7 +770,7 @@ func (rn *awRunner) authEvent(cl *awClient, kind byte, c int, rest []string, i i
 			return o + "+" + o2, m + "+" + m2
 		}
 		res := rn.doRequest(cl, spec)
-		return res.authOutcome(), fmt.Sprintf("H%d/%s/%s", c, awHexTriple(res.seen), awTok(spec.authString()))
+		return res.authOutcome(), res.authModelEvent(c, spec)
 	case 'B':
 		if len(rest) != 1 {
 			return "bad-op", ""
@@ -794,7 +805,7 @@ func (rn *awRunner) authEvent(cl *awClient, kind byte, c int, rest []string, i i
 			rn.w.mu.Lock()
 			delete(rn.w.entered, c)
 			rn.w.mu.Unlock()
-			return res.authOutcome(), fmt.Sprintf("H%d/%s/%s", c, awHexTriple(res.seen), awTok(spec.authString()))
+			return res.authOutcome(), res.authModelEvent(c, spec)
 		case <-entered:
 			cl.pending = make(chan awResp, 1)
 			pch := cl.pending
@@ -922,7 +933,7 @@ func (rn *awRunner) authEvent(cl *awClient, kind byte, c int, rest []string, i i
 //	stream <c> <kind> <pad> <n>       raw 0x401 stream with a TCPRequest; Out = silent | reply
 //	dgram <c> <n>                     UDPMessage datagram (fire and forget; replies are counted at `end`)
 //	breq <c> <cred>                   auth request whose authenticator call BLOCKS (Out = pending, or the answer if none was made)
-//	rel <c>                           release it; Out = the answer (233/<udp>/<rx> | masq)
+//	rel <c>                           release it; Out = the answer (233 | other)
 //	end                               close everything; Out = per-connection count of datagrams received
 type masqComp struct {
 	rn   *awRunner
@@ -1007,6 +1018,7 @@ func (m *masqComp) Run(op string) vh.Result {
 		if err != nil {
 			return vh.Result{Out: "harness-error " + awTok(err.Error())}
 		}
+		rn.c02 = true
 		m.rn = rn
 		m.nreq = 0
 		return vh.Result{Out: "ok", ModelOp: fmt.Sprintf("reset %d %d %d", awB(cfg.udp), cfg.maxRx, awB(cfg.rxAuto)), Oracle: orc}
